@@ -11,7 +11,11 @@ package main
 // XG many2many target, XN polymorphic child.  Every table has uid (row identity in observations),
 // v (data column for preload conditions) and deleted_at (soft delete).
 
-import "gorm.io/gorm"
+import (
+	"database/sql"
+
+	"gorm.io/gorm"
+)
 
 type Base struct {
 	UID       int64
@@ -263,4 +267,78 @@ type SU struct {
 	ID int64 `gorm:"primaryKey"`
 	Base
 	PCode *string
+}
+
+// ---------------- family V: foreign keys are driver.Valuer values (sql.NullInt64 / sql.NullString) ----------------
+// composite (int64, string) key; belongs-to field by VALUE (VT), has-many with POINTER elements.
+type VP struct {
+	N int64  `gorm:"primaryKey;autoIncrement:false"`
+	S string `gorm:"primaryKey"`
+	Base
+	TN     sql.NullInt64
+	TS     sql.NullString
+	BN     sql.NullInt64
+	BS     sql.NullString
+	Target VT    `gorm:"foreignKey:TN,TS;references:N,S"`
+	One    *VO   `gorm:"foreignKey:PN,PS;references:N,S"`
+	Many   []*VM `gorm:"foreignKey:PN,PS;references:N,S"`
+	Tags   []VG  `gorm:"many2many:vp_tags;foreignKey:N,S;joinForeignKey:OwnerN,OwnerS;references:N,S;joinReferences:TagN,TagS"`
+	Boss   *VP   `gorm:"foreignKey:BN,BS;references:N,S"`
+	Team   []*VP `gorm:"foreignKey:BN,BS;references:N,S"`
+}
+type VO struct {
+	ID int64 `gorm:"primaryKey"`
+	Base
+	PN sql.NullInt64
+	PS sql.NullString
+}
+type VM struct {
+	ID int64 `gorm:"primaryKey"`
+	Base
+	PN    sql.NullInt64
+	PS    sql.NullString
+	Owner *VP `gorm:"foreignKey:PN,PS;references:N,S"`
+}
+type VT struct {
+	N int64  `gorm:"primaryKey;autoIncrement:false"`
+	S string `gorm:"primaryKey"`
+	Base
+}
+type VG struct {
+	N int64  `gorm:"primaryKey;autoIncrement:false"`
+	S string `gorm:"primaryKey"`
+	Base
+}
+
+// ---------------- family B: []byte keys (binary ids); has-one field by VALUE ----------------
+type BP struct {
+	K []byte `gorm:"primaryKey"`
+	Base
+	TK     []byte
+	BK     []byte
+	Target *BT  `gorm:"foreignKey:TK;references:K"`
+	One    BO   `gorm:"foreignKey:PK;references:K"`
+	Many   []BM `gorm:"foreignKey:PK;references:K"`
+	Tags   []BG `gorm:"many2many:bp_tags;foreignKey:K;joinForeignKey:OwnerK;references:K;joinReferences:TagK"`
+	Boss   *BP  `gorm:"foreignKey:BK;references:K"`
+	Team   []BP `gorm:"foreignKey:BK;references:K"`
+}
+type BO struct {
+	ID int64 `gorm:"primaryKey"`
+	Base
+	PK []byte
+}
+type BM struct {
+	ID int64 `gorm:"primaryKey"`
+	Base
+	PK    []byte
+	Owner *BP `gorm:"foreignKey:PK;references:K"`
+}
+type BT struct {
+	K []byte `gorm:"primaryKey"`
+	Base
+}
+type BG struct {
+	K []byte `gorm:"primaryKey"`
+	Base
 }
